@@ -13,6 +13,7 @@ require (
 	github.com/golang/snappy v0.0.1
 	github.com/lianxiangcloud/linkchain v0.0.0
 	github.com/pkg/errors v0.8.1
+	github.com/xunleichain/tc-wasm v0.3.5
 	golang.org/x/crypto v0.0.0-20190701094942-4def268fd1a4
 )
 
@@ -49,7 +50,6 @@ require (
 	github.com/stretchr/testify v1.3.0 // indirect
 	github.com/syndtr/goleveldb v1.0.0 // indirect
 	github.com/twitchyliquid64/golang-asm v0.0.0-20190126203739-365674df15fc // indirect
-	github.com/xunleichain/tc-wasm v0.3.5 // indirect
 	golang.org/x/net v0.0.0-20190628185345-da137c7871d7 // indirect
 	golang.org/x/sync v0.0.0-20190423024810-112230192c58 // indirect
 	golang.org/x/sys v0.0.0-20190712062909-fae7ac547cb7 // indirect
